@@ -21,6 +21,7 @@ EXPLANATION = (
     "the gather result of tasks built by iterating the variations in order; (R3) the sync map runs and appends in iteration order and, like the "
     "collectors, raises the first failed item's own error object; (R4) zip expansion indexes every mapped list with the same increasing index after "
     "an equal-length check, product expansion is itertools.product over the lists in map_over order. (R7) every option map() shares with run() (select, on_missing, on_internal_override, entrypoint, max_concurrency, event_processors) is forwarded to the per-item run under its own name and is not rebound in map(); (R6) clone: the copy helper returns copy.deepcopy(value) on every normal path (no type-based shortcut), clone=True passes every broadcast value and clone=[names] exactly the listed ones through it, and the copies are made inside the per-item loops; (R5) a mapping graph node's executor forwards every translated input to the nested map unchanged, dropping exactly the values that *are* the inner graph's own bound objects (truth table of the comprehension filter over 'key bound' x 'same object'). R1 also requires that under 'item FAILED and mode is not raise' every reachable append stores the constant None (partial values of a failed item are not results)."
+    " R6 also requires (qualifier inference over the mapping executors) that the names in clone=[...] reach the nested map in the inner graph's name space; R5's filter table has a third dimension: a mapped parameter is always forwarded."
 )
 NOT_DECIDED = "That each item's result equals the single run on that combination, and the values produced by zip/product expansion (statements about computed data)."
 
@@ -347,8 +348,9 @@ VARIANTS = [
     Variant("map-drops-entrypoint", "src/hypergraph/runners/_shared/template_sync.py", sub_first(r"(                    on_internal_override=on_internal_override,\n)                    entrypoint=entrypoint,\n", r"\1"), {"C10.R7"}),
     Variant("clone-once-for-all-items", "src/hypergraph/runners/_shared/helpers.py", sub_first(r"(\n    for [^\n]*:\n(?:        [^\n]*\n)*?        yield \{\n(?:            [^\n]*\n)*?)            \*\*_maybe_clone_broadcast\(broadcast_values, clone\),", r"\1            **broadcast_values,"), {"C10.R6"}),
     Variant("failed-item-partial-values", "src/hypergraph/runners/_shared/helpers.py", replace_once("            # Continue mode: use None placeholders to preserve list length\n            for name in node.outputs:\n                collected[name].append(None)\n            continue\n", ""), {"C10.R1"}),
-    Variant("nested-map-drops-overriding-broadcast", "src/hypergraph/runners/sync/executors/graph_node.py", replace_once("if not (k in inner_bound and v is inner_bound[k])}", "if k not in inner_bound}"), {"C10.R5"}),
-    Variant("twin-nested-map-filter-demorgan", "src/hypergraph/runners/async_/executors/graph_node.py", replace_once("if not (k in inner_bound and v is inner_bound[k])}", "if k not in inner_bound or v is not inner_bound[k]}"), set()),
+    Variant("nested-map-drops-overriding-broadcast", "src/hypergraph/runners/sync/executors/graph_node.py", replace_once("if k in original_params or not (k in inner_bound and v is inner_bound[k])}", "if k in original_params or k not in inner_bound}"), {"C10.R5"}),
+    Variant("nested-map-drops-mapped-inner-bound", "src/hypergraph/runners/sync/executors/graph_node.py", replace_once("if k in original_params or not (k in inner_bound and v is inner_bound[k])}", "if not (k in inner_bound and v is inner_bound[k])}"), {"C10.R5"}),
+    Variant("twin-nested-map-filter-demorgan", "src/hypergraph/runners/async_/executors/graph_node.py", replace_once("if k in original_params or not (k in inner_bound and v is inner_bound[k])}", "if k in original_params or k not in inner_bound or v is not inner_bound[k]}"), set()),
     Variant("collector-conditional-append", HP, replace_once("            collected[name].append(renamed_values.get(name))", "            if name in renamed_values:\n                collected[name].append(renamed_values[name])"), {"C10.R1"}),
     Variant("collector-skip-failed-item", HP, replace_once("            # Continue mode: use None placeholders to preserve list length\n            for name in node.outputs:\n                collected[name].append(None)\n            continue", "            continue"), {"C10.R1"}),
     Variant("collector-double-append", HP, replace_once("            for name in node.outputs:\n                collected[name].append(None)\n            continue", "            for name in node.outputs:\n                collected[name].append(None)"), {"C10.R1"}),
